@@ -42,7 +42,7 @@ func H_C01_roundtrip() {
 	vAssert("parse-bytes", perr == nil && back.Equal(d) && back == d)
 	sback, serr := DefaultParser(string(text), 0)
 	vAssert("parse-string", serr == nil && sback == d)
-	var u Date
+	u := Date{year: vI32("prev.year"), month: vU8("prev.month"), day: vU8("prev.day")} // whatever the variable held before
 	uerr := u.UnmarshalText(text)
 	vAssert("unmarshal-text", uerr == nil && u == d)
 	// every output path
